@@ -691,7 +691,33 @@ func init() {
 		}},
 		{"AddMathFormula", 3, func(s *Script) {
 			if s.Hostile && s.R.Bool() {
-				s.Doc.AddMathFormula(s.Str(), s.R.Bool())
+				f := s.Str()
+				if s.R.Bool() {
+					// markup that is nearly a formula: the call may refuse it or must write something well-formed
+					f = []string{
+						"<m:r><m:t>x</m:r></m:t>",                           // balanced in count, closed in the wrong order
+						"<m:f><m:num><m:r><m:t>a</m:t></m:r></m:f></m:num>", // same, deeper
+						"<m:r><m:t>x</m:t>",                                 // unclosed
+						"<m:t>x</m:t></m:r>",                                // closes what it did not open
+						"</m:oMath><m:oMath>",                               // leaves the wrapper
+						"</m:oMath></w:p><w:p><m:oMath>",
+						"<q:r><q:t>x</q:t></q:r>", // unbound prefix
+						"<m:r m:x=1><m:t>x</m:t></m:r>",
+						"<m:r><m:t>&nbsp;&foo;</m:t></m:r>",
+						"<m:r><m:t><![CDATA[x]]></m:t></m:r>",
+						"<m:r><m:t><![CDATA[x</m:t></m:r>",
+						"<m:r><!-- c --><m:t>x</m:t></m:r>",
+						"<m:r><!-- c -- d --><m:t>x</m:t></m:r>",
+						"<?pi x?><m:r><m:t>x</m:t></m:r>",
+						"<m:r><m:t>x</m:t></m:r><",
+						"<m:r xmlns:m=\"urn:other\"><m:t>x</m:t></m:r>",
+						"<m:r><m:t a=\"1\" a=\"2\">x</m:t></m:r>",
+						"<m:r><M:t>x</m:t></m:r>",
+						"<m:r><m:t>x</m:T></m:r>",
+						"<m:r><m:t>" + s.Str() + "</m:t></m:r>",
+					}[s.R.Intn(20)]
+				}
+				s.Doc.AddMathFormula(f, s.R.Bool())
 				return
 			}
 			om, err := markdown.LaTeXToOMMLString([]string{"x^2", "\\frac{a}{b}", "\\sqrt{x}+\\alpha", "a_i^2 \\leq b", "\\sum_{i=0}^n i", "E = mc^2", "<&>"}[s.R.Intn(7)], s.R.Bool())
